@@ -154,7 +154,8 @@ PLAN = {
         pkg="c10", level="exploration",
         technique="differential testing of the pattern parser against an independent split-based grammar recogniser (exhaustive small-alphabet enumeration, rapid generation, native fuzzing) plus an instantiate-route-substitute-back round trip",
         level_text="Every string over a pattern-relevant 8-symbol alphabet (and host-only strings over 6 symbols) up to a bounded length, "
-                   "random token soups, damaged valid patterns, long hosts and names around the limits under explicit parameter limits, and "
+                   "random token soups, damaged valid patterns, long hosts and names around the limits under explicit parameter limits, patterns sitting exactly at, one below and one above "
+                   "twelve values of both limits including the defaults (and around 65536 and 131072 wildcards or name bytes), and "
                    "arbitrary bytes are submitted to NewRoute/Handle/Delete and to a reference recogniser; each accepted pattern is "
                    "registered alone and its generated instantiations must be routed back to it with parameters that reproduce the request.",
         level_note="Trusts harness/ref/grammar.go as the documented grammar; '_' in host labels (documentation and parser disagree, property silent) is not judged and counted.",
